@@ -141,6 +141,22 @@ func (c *FnCtx) sev(sc *specCtx, e *SExpr) *Term {
 			return mkNot(c.sevBool(sc, e.Args[0]))
 		case "-":
 			return mk("-", SInt, c.sev(sc, e.Args[0]))
+		case "&":
+			// address of a local variable whose address is taken in the code
+			if e.Args[0].Kind == "ident" {
+				var best types.Object
+				for obj := range sc.st.vars {
+					if obj.Name() == e.Args[0].Name && c.boxed[obj] {
+						if best == nil || obj.Pos() > best.Pos() {
+							best = obj
+						}
+					}
+				}
+				if best != nil {
+					return sc.st.vars[best].withGo(types.NewPointer(best.Type()))
+				}
+			}
+			c.specErr(e, "& is only supported on local variables whose address is taken in the code")
 		case "*":
 			p := c.sev(sc, e.Args[0])
 			if p.GoT == nil || !isPointer(p.GoT) {
@@ -551,6 +567,12 @@ func (c *FnCtx) sevCall(sc *specCtx, e *SExpr) *Term {
 func (c *FnCtx) specApplyFunc(sc *specCtx, fn *types.Func, recv *Term, args []*Term, e *SExpr) *Term {
 	key := funcKey(fn)
 	sig := fn.Type().(*types.Signature)
+	if recv != nil && recv.GoT != nil {
+		key = c.eng.canonicalMethodKey(key, recv.GoT)
+	}
+	if ct := c.eng.contracts[key]; ct != nil && !strings.HasPrefix(key, repoPrefix) && ct.Trusted {
+		c.trustedUsed["contract: "+key] = true
+	}
 	if strings.HasPrefix(key, repoPrefix) && c.eng.funcs[key] != nil {
 		ct := c.eng.contracts[key]
 		fi := c.eng.funcs[key]
